@@ -25,6 +25,24 @@ CLAIMED = {
  'C15': dict(cat='proof', tech='abstract interpretation of MIR: symbolic width/height decision trees vs the documented heuristic on the threshold grid; kernel identity between Unspecified and explicitly labelled requests',
    text='Constructors are interpreted with width/height symbolic: the forks give the exact decision tree, compared with the documented mpv heuristic on every cell of the grid of all thresholds (exhaustive since both are piecewise constant). For every conversion into Yuv/Rgb and every subset of Unspecified fields the resolved per-pixel kernel must be the same expression as the kernel obtained by requesting the output label explicitly.',
    ref='3/C15', note=TB),
+ 'C04': dict(cat='proof', tech='abstract interpretation of MIR with cbrtf as a function summary; exact rational comparison of the extracted opsin rows with libjxl; relative-error and Lipschitz bounds',
+   text='The forward XYB kernel extracted from MIR is shown to have the shape X=(L-M)/2, Y=(L+M)/2, B=S with L,M,S = cbrtf(max(0, A_i.rgb + b)) - cbrtf(b); the rows A_i and the bias the code computes (bit-exact constants) are compared with libjxl in rational arithmetic, roundings bounded a priori, and the cube root treated through its 1-ulp contract; the resulting bound covers all of [0,4]^3 and the stated negative-component stratum.',
+   ref='3/C04', note='Conditional on A-cbrt (cbrtf within 1 ulp on normal arguments, the accuracy clause of C18 which is not decided statically). ' + TB),
+ 'C05': dict(cat='proof', tech='abstract interpretation of MIR of forward followed by inverse; polynomial identity c^3 = mix; exact rational product INV*A; a-priori rounding bounds',
+   text='Forward and inverse are interpreted back to back; the output is a cubic polynomial in the three cube-root atoms whose leading coefficients are the inverse matrix entries; replacing c_i^3 by the exact mix polynomial gives INV*A - I and the bias defect in exact rationals, and all roundings are bounded, giving |back - p| <= bound for every p in [0,1]^3.',
+   ref='3/C05', note='Conditional on A-cbrt. ' + TB),
+ 'C08': dict(cat='proof', tech='abstract interpretation of MIR of decode followed by encode; exact rational product of the extracted f32 matrices; exact integer-wrapper table; a-priori rounding bounds',
+   text='Decode and encode are interpreted back to back per configuration; the pre-rounding value of each output plane is an affine form in the clamped normalised samples with coefficients M_fwd*M_inv*scale computed exactly; |v_p - clampS_p| < 1/2 is shown for every legal triple at once, the wrapper is shown to be exactly clamp(round), and the full-range chroma special case is shown to fire for code 0 only.',
+   ref='3/C08', note='4:4:4 as stated. ' + TB),
+ 'C11': dict(cat='proof', tech='loop store summaries from abstract interpretation of MIR; structural rules on index polynomials, kernel dependence and coverage; write-on-change lemma; effect analysis of the resolved call graph',
+   text='For all 14 conversions, both sample types and the subsamplings 0..2 the output kernel is resolved down to loads of the input; the rule proves the index of every load (same pixel / chroma sample of its block through stride and origin only), independence of the kernel from position, dimensions and strides, coverage of every output element, copied dimensions, untouched borrowed sources, subsampling-independent kernels, and purity of the call graph. These shapes imply the statement for every image size and padding.',
+   ref='3/C11', note='Loops over iterators the summariser does not recognise make the obligation UNDECIDED (fail closed); see DESIGN.md. ' + TB),
+ 'C13': dict(cat='proof', tech='taint + interval discharge of every recorded panic condition; integer bounds of stored codes; interval/NaN-flag analysis (binade-wise on helper bodies) for finiteness',
+   text='Every possible panic exit met while interpreting the conversions on abstract pixel data is recorded with its condition: pixel-dependent ones are shown impossible, geometry-only ones are discharged from constructor facts or shown unreachable for supported dimensions (else refuted with a witness geometry); stored codes are shown to lie in [0,2^n-1]; finiteness on [0,1]^3 is proved by interval analysis for all pipelines except those through the PQ EOTF (listed as not decided).',
+   ref='3/C13', note='Finiteness through the PQ to-linear curve is not decided (interval precision). Geometry preconditions (dimensions multiples of the subsampling, height >= 1) are outside the quantifier. ' + TB),
+ 'C16': dict(cat='proof', tech='constant propagation of the anchor values through kernels extracted from MIR; affine/error analysis along the grey axis; Lipschitz bound of the cube root',
+   text='Anchors are points or the one-parameter grey axis: the extracted kernels are folded at the anchor constants (exact machine arithmetic of the analyser, through the real powf/cbrtf bodies) for all matrices (standard and primaries-derived), ranges, depths, curves and primaries, and bounded along the whole grey axis for YUV, primaries, XYB and HSL.',
+   ref='3/C16', note='XYB grey clause conditional on A-cbrt; log/HLG curve anchors on A-libm. ' + TB),
 }
 NA_REASON = {}
 
